@@ -440,20 +440,41 @@ RECURSIVE Gfp(_)
 Gfp(S) == LET S2 == {pr \in S : RConf(pr[1], pr[2], S)} IN IF S2 = S THEN S ELSE Gfp(S2)
 RefConf == Gfp(Providers \X ProtoTypes)
 
-\* objects of the sub-universe: one instance per plain class and the builtin scalars
-PObjects == {PInst(c) : c \in PlainNames} \cup {I1, BT, F15, SA}
-RECURSIVE PMember(_, _)
-PMember(o, T) ==
+\* objects of the sub-universe: one instance per plain class (two of Kxi), the builtin scalars, the function literals
+\* and four class objects
+ClassLitNames == {"Kx", "Kxs", "Kxb", "K_"}
+PObjects == {PInst(c) : c \in PlainNames} \cup {I1, BT, F15, SA, KxiS} \cup FunObjs \cup {ClassObj(c) : c \in ClassLitNames}
+\* membership of an OBJECT: what the object itself provides (ObjLookup) -- a data member by the value the object holds,
+\* a method by its declared signature (RefConf closes the recursion through protocol-typed member types)
+RECURSIVE PMemberRaw(_, _)
+PMemberRaw(o, T) ==
     CASE T.k = "any" -> TRUE
       [] T.k = "known" -> o = T.o
-      [] T.k = "union" -> \E i \in 1..Len(T.ms) : PMember(o, T.ms[i])
-      [] IsPT(T) -> <<Typed(o.c), T>> \in RefConf
+      [] T.k = "union" -> \E i \in 1..Len(T.ms) : PMemberRaw(o, T.ms[i])
+      [] IsPT(T) ->
+           \A n \in RefReqNames(T.c) :
+               LET r == SubstE(RefReqOf(T.c, n).e, T)
+                   p == ObjLookup(o, n)
+               IN p.found /\ (IF r.k \in DataKinds /\ p.e.k \in DataKinds THEN PMemberRaw(p.e.v, r.t) ELSE REntryOK(p.e, r, RefConf))
+      [] T.k = "callable" ->      \* the object can be called like the signature says
+           LET p == ObjLookup(o, "__call__")
+           IN /\ p.found /\ p.e.k = "method" /\ Len(p.e.ps) = Len(T.ps) /\ RSub(p.e.t, T.ret, RefConf)
+              /\ \A i \in 1..Len(T.ps) : RSub(T.ps[i].t[1], p.e.ps[i], RefConf)
       [] OTHER ->      \* a nominal class; run-time membership (no int -> float promotion: 1 has no attribute hex)
-           T.c \in RangeOf(FullMro(o.c))
+           IF o.c \in PClassNames THEN T.c \in RangeOf(FullMro(o.c)) ELSE T.c = "object"
+\* (the structural memberships of the objects, computed once)
+CallOf(p, r) == CallableT(<<SigParam("x", "pos", <<p>>, FALSE)>>, r)
+CallTerms == {CallOf(TInt, TInt), CallOf(TStr, TInt), CallOf(TInt, TObj)}
+RefMem == {pr \in PObjects \X (ProtoTypes \cup CallTerms) : PMemberRaw(pr[1], pr[2])}
+RECURSIVE PMember(_, _)
+PMember(o, T) ==
+    CASE T.k = "union" -> \E i \in 1..Len(T.ms) : PMember(o, T.ms[i])
+      [] (IsPT(T) \/ T.k = "callable") /\ o \in PObjects /\ T \in ProtoTypes \cup CallTerms -> <<o, T>> \in RefMem
+      [] OTHER -> PMemberRaw(o, T)
 RefSound(A, B) == \A o \in PObjects : PMember(o, B) => PMember(o, A)
 
 \* presence of the members at run time (what hasattr-style checks see), used to validate the table and the oracle
-RefPresent(c, p) == \A n \in RefReqNames(p) : LET a == FindIn(FullMro(c), n) IN a.found /\ (a.e.k = "none" => RefReqOf(p, n).e.k # "method")
+RefPresent(o, p) == \A n \in RefReqNames(p) : LET a == ObjLookup(o, n) IN a.found /\ (a.e.k = "none" => RefReqOf(p, n).e.k # "method")
 
 (***************************************************************************)
 (* Known deviations of the unchanged tree (known_findings.jsonl): a pair   *)
@@ -481,7 +502,8 @@ PHasBare(T) == CASE T.k = "typed" -> T.c = "PG"
 
 C04P_Sound(A, B, F, devs) == (AcceptF(A, B, F) /\ ~PHasBare(A) /\ ~PHasBare(B)) => (RefSound(A, B) \/ \E f \in devs : Dev_Of(f, A, B))
 C04P_Refl(A) == AcceptF(A, A, RealF)
-C04P_UnionLeft(A, B) == B.k = "union" => (AcceptF(A, B, RealF) <=> \A i \in 1..Len(B.ms) : AcceptF(A, B.ms[i], RealF))
+C04P_UnionLeftF(A, B, F) == B.k = "union" => (AcceptF(A, B, F) <=> \A i \in 1..Len(B.ms) : AcceptF(A, B.ms[i], F))
+C04P_UnionLeft(A, B) == C04P_UnionLeftF(A, B, RealF)
 C04P_UnionRight(A, B) == (A.k = "union" /\ B.k # "union") => ((\E i \in 1..Len(A.ms) : AcceptF(A.ms[i], B, RealF)) => AcceptF(A, B, RealF))
 
 (***************************************************************************)
@@ -489,7 +511,7 @@ C04P_UnionRight(A, B) == (A.k = "union" /\ B.k # "union") => ((\E i \in 1..Len(A
 (* sequence of checks through ONE Checker: the positive cache is state.    *)
 (***************************************************************************)
 CONSTANTS PMode,      \* "pairs" | "hist"
-          PFlags,     \* name of the switch record the invariants are evaluated with: "real" | "skipabc" | "keyleft"
+          PFlags,     \* name of the switch record the invariants are evaluated with: "real" | "skipabc" | "keyleft" | "firstlit"
           PNoDev,     \* a deviation class left out of InvPSound ("" = none, "all" = every class): sensitivity self-test
           HistLen,    \* number of checks per history
           HistSpace   \* "rec" | "rec3" | "mid" | "all"
@@ -497,6 +519,7 @@ CONSTANTS PMode,      \* "pairs" | "hist"
 F0 == CASE PFlags = "real" -> RealF
         [] PFlags = "skipabc" -> [RealF EXCEPT !.skipabc = TRUE]
         [] PFlags = "keyleft" -> [RealF EXCEPT !.keyleft = TRUE]
+        [] PFlags = "firstlit" -> [RealF EXCEPT !.firstlit = TRUE]
         [] PFlags = "repaired" -> AllRepaired
 
 CandTyped == {Typed(c) : c \in PlainNames \cup BuiltinCands}
@@ -505,8 +528,26 @@ UnionsA == {Union(<<Typed("P2"), Typed("P1")>>), Union(<<Typed("PS"), Typed("PA"
             Union(<<Typed("PQ2"), Typed("PQ1")>>)}
 UnionsB == {Union(<<Typed("K_m"), Typed("K_mn")>>), Union(<<Typed("K_m"), Typed("K_")>>), Union(<<Typed("Kname"), Known(PInst("KnameLen"))>>),
             Union(<<Typed("KRec"), Known(I1)>>), Union(<<Typed("KQ"), Typed("KQz")>>), Union(<<Typed("Kx"), Typed("Kxprops")>>), Never}
-SpaceA == ProtoTypes \cup UnionsA \cup {TObj, Typed("K_m"), Typed("KP1"), Typed("PG")}
+\* CallTerms: Callable[[int], int], Callable[[str], int], Callable[[int], object] (CallableValue is a TypedValue without
+\* generic arguments)
+\* literals of ONE run-time type that an expected type may tell apart, and their unions in every order: functions
+\* (pairs, and every order of two triples), the two instances of Kxi, two ints; class objects (offered to the data protocols)
+FunLits == {Known(o) : o \in FunObjs}
+Perms3(a, b, c) == {Union(<<a, b, c>>), Union(<<a, c, b>>), Union(<<b, a, c>>), Union(<<b, c, a>>), Union(<<c, a, b>>), Union(<<c, b, a>>)}
+FL(n) == Known(FunObj(n))
+SameTypeUnions ==
+    ({Union(<<a, b>>) : a \in FunLits, b \in FunLits} \ {Union(<<a, a>>) : a \in FunLits})
+    \cup Perms3(FL("F_ii"), FL("F_oi"), FL("F_si")) \cup Perms3(FL("F_ib"), FL("F_ii"), FL("F_iii"))
+    \cup {Union(<<Known(PInst("Kxi")), Known(KxiS)>>), Union(<<Known(KxiS), Known(PInst("Kxi"))>>),
+          Union(<<Known(I1), Known(BT), Known(I1)>>), Union(<<Known(KxiS), Known(I1), Known(PInst("Kxi"))>>)}
+ClassLits == {Known(ClassObj(c)) : c \in ClassLitNames}
+ClassUnions == {Union(<<a, b>>) : a \in ClassLits, b \in ClassLits} \ {Union(<<a, a>>) : a \in ClassLits}
+SpaceA == ProtoTypes \cup UnionsA \cup {TObj, Typed("K_m"), Typed("KP1"), Typed("PG")} \cup CallTerms
 SpaceB == CandTyped \cup CandKnown \cup ProtoTypes \cup UnionsB
+\* what is offered to the expected type A in "pairs" mode
+SpaceBOf(A) == SpaceB \cup FunLits \cup {Known(KxiS)} \cup SameTypeUnions
+               \cup (IF A \in {Typed("PA"), Typed("PAn")} THEN ClassLits \cup ClassUnions ELSE {})
+               \cup (IF A.k = "callable" THEN CallTerms ELSE {})
 
 \* the recursive family: the only checks whose nested checks run under a recursion-guard assumption
 RecProtos == {Typed("PRec"), Typed("PQ1"), Typed("PQ2"), Typed("PAcc")}
@@ -532,7 +573,7 @@ RepF0 == [F0 EXCEPT !.cacheassumed = FALSE]      \* the repair: cache only what 
 PInit == /\ pstage = "a" /\ pa = Never /\ pb = Never /\ pcache = {} /\ pcacheR = {} /\ phist = << >>
          /\ stage = "proto" /\ ta = Never /\ tb = Never /\ ob = NONE
 PChooseA == PMode = "pairs" /\ pstage = "a" /\ \E t \in SpaceA : pa' = t /\ pstage' = "b" /\ UNCHANGED <<pb, pcache, pcacheR, phist>>
-PChooseB == PMode = "pairs" /\ pstage = "b" /\ \E t \in SpaceB : pb' = t /\ pstage' = "done" /\ UNCHANGED <<pa, pcache, pcacheR, phist>>
+PChooseB == PMode = "pairs" /\ pstage = "b" /\ \E t \in SpaceBOf(pa) : pb' = t /\ pstage' = "done" /\ UNCHANGED <<pa, pcache, pcacheR, phist>>
 \* one check through the shared Checker: verdict with the current cache, the cache afterwards (r / pcache: the code as
 \* it is; rr / pcacheR: the same history through the repaired caching rule)
 PCheckStep ==
@@ -550,13 +591,13 @@ Devs0 == IF PNoDev = "all" THEN {} ELSE DevFlags \ {PNoDev}
 InvPSound == PDone => C04P_Sound(pa, pb, F0, Devs0)
 \* every deviation class is inhabited by an unsound acceptance that no other class explains (so none of them is vacuous
 \* and InvPSound without that class is violated)
-DevInhabited(f) == \E A \in SpaceA, B \in SpaceB :
+DevInhabited(f) == \E A \in SpaceA : \E B \in SpaceBOf(A) :
                        /\ ~PHasBare(A) /\ ~PHasBare(B) /\ AcceptF(A, B, RealF) /\ ~RefSound(A, B)
                        /\ Dev_Of(f, A, B) /\ \A g \in DevFlags \ {f} : ~Dev_Of(g, A, B)
 InvPDevInhabited == pstage = "a" => \A f \in DevFlags : DevInhabited(f)
 InvPSoundRepaired == PDone => C04P_Sound(pa, pb, AllRepaired, {})      \* with every deviation repaired the model is sound
-InvPRefl == (pstage = "b" /\ (IsPT(pa) \/ pa.k = "union")) => C04P_Refl(pa)
-InvPUnionLeft == PDone => C04P_UnionLeft(pa, pb)
+InvPRefl == (pstage = "b" /\ (IsPT(pa) \/ pa.k \in {"union", "callable"})) => C04P_Refl(pa)
+InvPUnionLeft == PDone => C04P_UnionLeftF(pa, pb, F0)
 InvPUnionRight == PDone => C04P_UnionRight(pa, pb)
 InvPNeverBottom == pstage = "b" => AcceptF(pa, Never, RealF)
 InvPObjectTop == PDone => AcceptF(TObj, pb, RealF)
